@@ -10,7 +10,7 @@ observable and checked against generic invariants.
 from .. import flowcheck
 from .. import floworacle as fo
 
-LEAN_MODULES = ['Props.C07', 'Props.Agreement']
+LEAN_MODULES = ['Props.C07', 'Props.Agreement', 'Props.Translated_C07']
 TRUSTED = ['harness/flow_impl.py (yaml renderer, canonicaliser, virtual clock, scripted random.uniform)',
            'harness/probe/vprobe.py (probe step) and its model probeStep',
            'harness/floworacle.py (directed expectations written from the property text)',
@@ -19,12 +19,25 @@ ASSUMPTIONS = ['formatting inside decorators is restricted to the simple {key} g
                'context keys are strings; dict keys never mix bool/int/float',
                'log output, real time and BaseException other than Exception subclasses are outside the observables']
 
+def extract(env):
+    """Translate pypyr/errors.py get_error_name of the tree under test into Lean definitions (harness/translate.py ->
+    lean/Generated/Translated*.lean, ast only); Props/Translated_C07.lean proves them equal to the hand-written
+    model definitions. Outside the translatable subset this raises (-> proof problem). Thorough tier: also
+    run the translated definitions against the real functions on random inputs (harness/translate_selftest.py)."""
+    from .. import translate
+    translate.generate(['C07'])
+    if not env.quick and not env.escalated:
+        from .. import translate_selftest
+        translate_selftest.check(['C07'], env.seed)
+
 
 def run(env, res):
     res.rule = ('directed families (expectation from the property text) first, then seeded random pipelines '
-                '(1-3 pipelines, 1-4 groups, 0-4 steps per group, decorators with p~0.25 each); a case is '
+                '(1-3 pipelines, 1-4 groups, 0-4 steps per group, decorators with p~0.25 each, foreach items incl. '
+                'None/0/\'\'/False/[]/{}, 12% with a malformed group body or sequence item, 35% written in another '
+                'yaml layout: flow style, JSON, first step on line 1, other indentation); a case is '
                 'non-trivial when the model accepts it and it terminates; distinct by canonical program text')
-    directed = [('c07', fo.c07_family, env.n(40, 100000)), ('c06', fo.c06_family, env.n(100, 2000)), ('c01-straight', fo.c01_family, env.n(100, 2000))]
+    directed = [('c07', fo.c07_family, env.n(150, 100000)), ('c06', fo.c06_family, env.n(100, 2000)), ('c01-straight', fo.c01_family, env.n(100, 2000))]
     flowcheck.run_streams(env, res, directed, env.n(600, 25000), weights={'fail': 7, 'call': 3},
                           random_monitor=flowcheck.monitor_all)
 
